@@ -63,12 +63,21 @@ pub fn run_stage_opt(name: &str, runs: u64, wall_cap: Duration, total: &mut Stat
     let unconfirmed: std::sync::Mutex<Option<(u64, Scenario, Violation)>> = std::sync::Mutex::new(None);
     // fixed corpora have no schedule to count
     let track_prefix = !name.starts_with("sweep") && !name.starts_with("grid");
+    let is_c12 = c.prop == "C12";
     let on_hang = |i: u64| {
+        if !is_c12 {
+            // only C12 claims that every call returns; elsewhere a run that does not finish is not a verdict
+            // on the property: say so and leave with the harness-error code
+            eprintln!("harness error: run {} of stage {} made no progress within the limit (a call that does not return, or an implementation that became very slow on huge windows); this is C12's subject, not {}'s", i, name, c.prop);
+            std::process::exit(2);
+        }
         // the stuck run is regenerated from its index and written out as the replay file
         let sc = gen(i);
         report::hang_exit(i, Some(&sc));
     };
-    let hang_limit = Duration::from_secs(std::env::var("VERIF_HANG_LIMIT").ok().and_then(|s| s.parse().ok()).unwrap_or(60));
+    // generous: an implementation may legitimately do O(window) work per call under some condition, and the
+    // fixed corpora contain windows of 2e5 slots
+    let hang_limit = Duration::from_secs(std::env::var("VERIF_HANG_LIMIT").ok().and_then(|s| s.parse().ok()).unwrap_or(if is_c12 { 300 } else { 900 }));
     let b = run_batch(runs, c.jobs, wall_cap, hang_limit, &on_hang, |i, st| {
         let t_run = std::time::Instant::now();
         let sc = gen(i);
